@@ -1066,18 +1066,21 @@ def _rpad_item(T, e, pos, pad):
 
 
 def fillna(T, tvs, value):
-    """Content::fillna replaces every None at every level (lists and records recurse into their
-    contents; ak.fill_none(axis=...) in the Python layer restricts the level)."""
-    def rec(v):
-        if v is None:
-            return value
+    """Content::fillna at layout level: lists and records pass the request on to their contents; the
+    first option-type node reached on each path replaces its own None values and does not look deeper
+    (ak.fill_none(axis=...) in the Python layer chooses the level)."""
+    def rec(T, v):
         if isinstance(v, U):
-            return rec(v.v)
-        if isinstance(v, list):
-            return [rec(x) for x in v]
-        if isinstance(v, tuple):
-            return tuple(rec(x) for x in v)
-        if isinstance(v, dict):
-            return {k: rec(x) for k, x in v.items()}
+            return rec(T[1][v.tag], v.v)
+        k = T[0]
+        if k == "opt":
+            return value if v is None else strip(v)
+        if k in ("var", "reg"):
+            Tc = T[1] if k == "var" else T[2]
+            return [rec(Tc, x) for x in v]
+        if k == "rec":
+            return {key: rec(t, v[key]) for key, t in T[1]}
+        if k == "tup":
+            return tuple(rec(t, v[i]) for i, t in enumerate(T[1]))
         return v
-    return [rec(e) for e in tvs]
+    return [rec(T, e) for e in tvs]
